@@ -479,7 +479,7 @@ func (g *structGen) genStruct(depth int) (desc.T, desc.V) {
 
 // containerField draws a nested struct in one of the supported wrappers.
 func (g *structGen) containerField(name string, depth int) (desc.F, desc.V) {
-	shape := rapid.SampledFrom([]string{"struct", "ptr", "ptr", "slice", "sliceptr", "array", "map", "mapptr", "mapint", "ptrptr", "sliceptrptr", "mapptrptr", "arrayptrptr"}).Draw(g.t, "shape")
+	shape := rapid.SampledFrom([]string{"struct", "ptr", "ptr", "slice", "sliceptr", "array", "map", "mapptr", "mapint", "ptrptr", "sliceptrptr", "mapptrptr", "arrayptrptr", "mapfloat"}).Draw(g.t, "shape")
 	inner, _ := g.genStruct(depth + 1)
 	// values are drawn per element below, against the same inner type: rules of
 	// the inner type were drawn relative to the first value only, which keeps
@@ -580,11 +580,16 @@ func (g *structGen) containerField(name string, depth int) (desc.F, desc.V) {
 		if shape == "mapint" {
 			key = desc.Scalar("int")
 		}
+		if shape == "mapfloat" {
+			key = desc.Scalar("float64") // float keys: one of them may be NaN (a legal key that cannot be looked up)
+		}
 		ty = desc.Map(key, elem)
 		v = desc.V{Nil: n < 0}
 		for i := 0; i < n; i++ {
 			if shape == "mapint" {
 				v.K = append(v.K, desc.V{I: int64(i*7 + 1)})
+			} else if shape == "mapfloat" {
+				v.K = append(v.K, []desc.V{{F: 1.5}, {NaN: true}, {F: -2}}[i%3])
 			} else {
 				v.K = append(v.K, desc.Str(mapKeyName(i)))
 			}
@@ -649,6 +654,8 @@ func (g *structGen) genValueFor(ty desc.T, depth int) desc.V {
 		for i := 0; i < n; i++ {
 			if ty.Key.K == "string" {
 				v.K = append(v.K, desc.Str(mapKeyName(i)))
+			} else if ty.Key.K == "float64" {
+				v.K = append(v.K, []desc.V{{F: 1.5}, {NaN: true}, {F: -2}}[i%3])
 			} else {
 				v.K = append(v.K, desc.V{I: int64(i*7 + 1)})
 			}
